@@ -177,9 +177,5 @@ func buildSpec(repo, harnessDir string, pkgDirs []string, modfile string) (LoadS
 	return spec, nil
 }
 
-func cmdCheck(args []string) {
-	fmt.Fprintln(os.Stderr, "check: not implemented yet")
-	os.Exit(2)
-}
 
 var _ = types.Typ
